@@ -3,13 +3,18 @@
 //! This module contains a global flag, SUIRON_STOP_QUERY. The flag is set
 //! by the timer thread and read by the query thread, so it is atomic.
 
-use std::sync::atomic::{AtomicBool, Ordering};
+use std::sync::atomic::{AtomicBool, AtomicUsize, Ordering};
 use std::time::Duration;
 use thread_timer::ThreadTimer;
 
 use super::logic_var::*;
 
 static SUIRON_STOP_QUERY: AtomicBool = AtomicBool::new(false);
+
+// Identifies the timer which is allowed to stop the current query. Starting or
+// cancelling a timer changes the number, so that a timer which could not be
+// cancelled in time (see cancel_timer()) cannot stop a later query.
+static SUIRON_TIMER_NUMBER: AtomicUsize = AtomicUsize::new(0);
 
 /// Create a timer with a timeout in milliseconds.
 ///
@@ -28,9 +33,14 @@ static SUIRON_STOP_QUERY: AtomicBool = AtomicBool::new(false);
 /// ```
 pub fn start_query_timer(milliseconds: u64) -> ThreadTimer {
     SUIRON_STOP_QUERY.store(false, Ordering::SeqCst);
+    let number = SUIRON_TIMER_NUMBER.fetch_add(1, Ordering::SeqCst) + 1;
     let timer = ThreadTimer::new();
     timer.start(Duration::from_millis(milliseconds),
-                move || { stop_query(); }).unwrap();
+                move || {
+                    if SUIRON_TIMER_NUMBER.load(Ordering::SeqCst) == number {
+                        stop_query();
+                    }
+                }).unwrap();
     return timer;
 } // start_query_timer()
 
@@ -46,6 +56,10 @@ pub fn start_query_timer(milliseconds: u64) -> ThreadTimer {
 /// cancel_timer(timer);
 /// ```
 pub fn cancel_timer(timer: ThreadTimer) {
+    // ThreadTimer::cancel() can fail when it is called just as the timer
+    // thread starts to wait. The timer then keeps running. Invalidate it,
+    // so that it does not stop whichever query is running when it fires.
+    SUIRON_TIMER_NUMBER.fetch_add(1, Ordering::SeqCst);
     match timer.cancel() {
         Ok(_) => {},
         Err(_) => {},
